@@ -5,7 +5,7 @@
    validation rests on. *)
 From Avo Require Import Base.Prelude.
 From stdpp Require Import gmap.
-From Avo Require Import Base.MaskSet Model.IR Model.RegFile Model.Liveness Model.Alloc Model.Cleanup Model.Pipeline Model.Sem Proofs.LivenessProofs Proofs.AllocProofs Proofs.SimProofs Proofs.SimLink Proofs.SimValidator Proofs.LivenessTerm Proofs.AllocLoop Proofs.AllocCorrect Proofs.AllocSim Proofs.BindProofs Model.CFG Model.NodeSem Proofs.CleanupSem Proofs.CFGSem Proofs.NodeMachine.
+From Avo Require Import Base.MaskSet Model.IR Model.RegFile Model.Liveness Model.Alloc Model.Cleanup Model.Pipeline Model.Sem Proofs.LivenessProofs Proofs.AllocProofs Proofs.SimProofs Proofs.SimLink Proofs.SimValidator Proofs.LivenessTerm Proofs.AllocLoop Proofs.AllocCorrect Proofs.AllocSim Proofs.BindProofs Model.CFG Model.NodeSem Proofs.CleanupSem Proofs.CFGSem Proofs.NodeMachine Model.Cert Proofs.SimCert.
 Open Scope N_scope.
 
 (* the liveness used by the allocator is exactly path liveness (C02), in particular it is complete:
@@ -152,3 +152,23 @@ Example validator_example :
   allocation_valid [(65793, 256); (131329, 512)] pr = true /\ allocation_valid [(65793, 256); (131329, 256)] pr = false.
 Proof. split; vm_compute; reflexivity. Qed.
 Print Assumptions validator_example.
+
+(* functions too large for the path-liveness decision procedure to be run inside Coq: the live sets
+   the implementation itself computed are taken as a certificate.  If they are closed under the
+   dataflow equations (closed_b, evaluated on every run: Check.cert_alloc_ok) and no definition
+   lands on a register that holds another value of the certificate (no_clobber_model), every run of
+   the function is matched, step by step, by a run of the renamed function that agrees on every
+   location of the certificate.  Nothing about how the sets were obtained is assumed. *)
+Theorem certified_allocation_preserves_semantics :
+  forall (val memt : Type) (F : nat -> list val -> memt -> list val * memt * option nat) (pr : prog_regs_t) (al : list (N * N)) (r : st),
+  closed_b (p pr) r = true -> no_clobber_model al r pr = true ->
+  (forall j i vs m outs m' n, List.nth_error (P pr) j = Some i -> F j vs m = (outs, m', Some n) -> In n (m_succ i)) ->
+  (forall j i vs m outs m' npc, List.nth_error (P pr) j = Some i -> F j vs m = (outs, m', npc) -> List.length outs = List.length (m_defs i)) ->
+  forall n j R R' m st1,
+    (forall l, LIn r j l -> R l = R' (rename (sigma_of al) l)) ->
+    mrun val memt F (P pr) n (j, R, m) = Some st1 ->
+    exists j1 R1 R1' m1, st1 = (j1, R1, m1)
+      /\ mrun val memt F (List.map (rename_instr (sigma_of al)) (P pr)) n (j, R', m) = Some (j1, R1', m1)
+      /\ (forall l, LIn r j1 l -> R1 l = R1' (rename (sigma_of al) l)).
+Proof. exact certified_allocation_preserves_semantics_lemma. Qed.
+Print Assumptions certified_allocation_preserves_semantics.
